@@ -339,6 +339,7 @@ func init() {
 			{Name: "gostring", TShards: 4, Run: c20GoString},
 			{Name: "readers", Race: true, TShards: 2, Run: c20Readers},
 			{Name: "parallel", Race: true, Run: matrixParallel},
+			firstCallUnit(firstMatrix),
 			{Name: "compiled", Thorough: true, Run: c20Compiled},
 		},
 	})
@@ -470,7 +471,17 @@ func c20Symmetrical(c *Ctx) {
 				// then break one pair
 				for key, v := range m {
 					if key[0] != key[1] {
-						m[key] = v + 1
+						// by one, or by as little as two floats can differ
+						switch r.IntN(4) {
+						case 0:
+							m[key] = v + 1
+						case 1:
+							m[key] = math.Nextafter(v, math.Inf(1))
+						case 2:
+							m[key] = math.Nextafter(v, math.Inf(-1))
+						default:
+							m[key], m[[2]byte{key[1], key[0]}] = 0.1+0.2, 0.3
+						}
 						break
 					}
 				}
